@@ -1,10 +1,19 @@
 //! Manage tokens for remote client IPs.
 
 use crc::{Crc, CRC_32_ISCSI};
+#[cfg(not(mainline_verif))]
 use std::{
     fmt::{self, Debug, Formatter},
     net::SocketAddrV4,
     time::Instant,
+};
+#[cfg(mainline_verif)]
+use {
+    crate::verif::{getrandom, Instant},
+    std::{
+        fmt::{self, Debug, Formatter},
+        net::SocketAddrV4,
+    },
 };
 
 use tracing::trace;
